@@ -242,7 +242,109 @@ def prog_flows(rng, **kw):
     return prog
 
 
-FAMILIES = {"flat": prog_flat, "nested": prog_nested, "bankrupt": prog_bankrupt, "flows": prog_flows}
+def prog_lookback(rng, **kw):
+    """Strategies assembled from the stock algos that look at history:
+    lookback windows, lags, dated weights / signals / statistics (C04, C10,
+    C11, C14, C15 in situ)."""
+    kw.setdefault("T", rng.randint(10, 14))
+    sel = rng.choice(["all", "hasdata", "momentum", "setstat", "where", "these", "stat_n", "random"])
+    wg = rng.choice(["equal", "invvol", "erc", "target", "equal_tv", "equal_ld", "equal_lw", "random", "equal", "invvol"])
+    # a dated target / statistic names tickers whatever their price: no late listings there
+    late_ok = wg != "target" and sel != "setstat"
+    prog = base_prog(rng, late=late_ok and rng.random() < 0.4, **kw)
+    cols = prog["cols"]
+    T = prog["T"]
+    ex = prog["extra"]
+    st = []
+    sch = rng.choice([None, ("RunDaily", {}), ("RunWeekly", {}), ("RunWeekly", {"run_on_end_of_period": True}), ("RunMonthly", {"run_on_end_of_period": True}),
+                      ("RunEveryNPeriods", {"n": 2}), ("RunAfterDays", {"days": 3}), ("RunOnDate", {"idx": sorted(rng.sample(range(0, T), 3))}),
+                      ("RunAfterDate", {"idx": rng.randint(0, T // 2)})])
+    if sch:
+        st.append(list(sch))
+    if wg in ("invvol", "erc", "equal_tv"):
+        st.append(["RunAfterDays", {"days": 5}])  # warm-up: the estimators need a few returns
+    if sel == "all":
+        st.append(["SelectAll", {}])
+    elif sel == "hasdata":
+        st.append(["SelectHasData", {"lookback": rng.choice([1, 2, 4]), "min_count": rng.choice([1, 2, 3])}])
+    elif sel == "momentum":
+        st.append(["SelectAll", {}])
+        st.append(["SelectMomentum", {"n": rng.choice([1, 2]), "lookback": rng.choice([3, 4, 5]), "lag": rng.choice([0, 1, 2])}])
+    elif sel == "stat_n":
+        st.append(["SelectAll", {}])
+        st.append(["StatTotalReturn", {"lookback": rng.choice([3, 4, 6]), "lag": rng.choice([0, 1])}])
+        st.append(["SelectN", {"n": rng.choice([1, 2, 0.5]), "sort_descending": rng.random() < 0.5, "all_or_none": rng.random() < 0.3}])
+    elif sel == "setstat":
+        sparse = rng.random() < 0.5
+        ex["stat"] = {c: [(None if (sparse and rng.random() < 0.2) else rng.choice([1, 2, 3, 5, 8])) for _ in range(T)] for c in cols}
+        if rng.random() < 0.6:  # published on some dates only
+            ex["stat"]["__idx__"] = sorted(rng.sample(range(T), rng.randint(T // 3, T - 1)))
+        st.append(["SetStat", {"stat": "stat", "lag": rng.choice([0, 0, 1, 3])}])
+        st.append(["SelectN", {"n": rng.choice([1, 2]), "sort_descending": rng.random() < 0.5}])
+    elif sel == "where":
+        ex["signal"] = {c: [rng.random() < 0.6 for _ in range(T)] for c in cols}
+        if rng.random() < 0.4:
+            ex["signal"]["__idx__"] = sorted(rng.sample(range(T), rng.randint(T // 2, T - 1)))
+        st.append(["SelectWhere", {"signal": "signal"}])
+    elif sel == "these":
+        st.append(["SelectThese", {"tickers": rng.sample(cols, rng.randint(1, len(cols)))}])
+    else:
+        st.append(["SelectAll", {}])
+        st.append(["SelectRandomly", {"n": rng.choice([1, 2])}])
+    if wg == "equal":
+        st.append(["WeighEqually", {}])
+    elif wg == "invvol":
+        st.append(["WeighInvVol", {"lookback": rng.choice([3, 4, 6]), "lag": rng.choice([0, 1])}])
+    elif wg == "erc":
+        st.append(["WeighERC", {"lookback": rng.choice([4, 6]), "lag": rng.choice([0, 1])}])
+    elif wg == "target":
+        rows = [wvec(rng, cols, "lattice") if rng.random() < 0.6 else None for _ in range(T)]
+        ex["tw"] = {c: [None if r is None else r.get(c) for r in rows] for c in cols}
+        if rng.random() < 0.5:  # weights dated on some dates only
+            keep = [i for i, r in enumerate(rows) if r is not None]
+            if keep:
+                ex["tw"]["__idx__"] = keep
+        st.append(["WeighTarget", {"weights": "tw"}])
+    elif wg == "equal_tv":
+        st.append(["WeighEqually", {}])
+        st.append(["TargetVol", {"vol": rng.choice([0.1, 0.2]), "lookback": rng.choice([3, 5]), "lag": rng.choice([0, 1])}])
+    elif wg == "equal_ld":
+        st.append(["WeighEqually", {}])
+        st.append(["LimitDeltas", {"limit": rng.choice([0.1, 0.25])}])
+    elif wg == "equal_lw":
+        st.append(["WeighEqually", {}])
+        st.append(["LimitWeights", {"limit": rng.choice([0.4, 0.6])}])
+    else:
+        st.append(["WeighRandomly", {}])
+    st.append(rng.choice([["Rebalance", {}], ["Rebalance", {}], ["RebalanceOverTime", {"n": 3}]]))
+    prog["tree"] = {"name": "r", "algos": st, "children": []}
+    prog["family"] = "lookback"
+    return prog
+
+
+def prog_nested09(rng, **kw):
+    """C09: nested trees whose sub-strategies are calendar-gated; parents with
+    allocation schedules incl. never / late / partial / withdrawing."""
+    prog = prog_nested(rng, **kw)
+    top = [c["name"] for c in prog["tree"]["children"] if isinstance(c, dict)]
+    mode = rng.choice(["asis", "never", "late", "once", "withdraw"])
+    st = prog["tree"]["algos"]
+    if mode == "never":
+        prog["tree"]["algos"] = [["RunAfterDays", {"days": 99}]] + st
+    elif mode == "late":
+        prog["tree"]["algos"] = [["RunAfterDays", {"days": rng.randint(2, 4)}]] + [a for a in st if not a[0].startswith("Run")]
+    elif mode == "once":
+        prog["tree"]["algos"] = [["RunOnce", {}]] + [a for a in st if not a[0].startswith("Run")]
+    elif mode == "withdraw":
+        T = prog["T"]
+        rows = [({n_: rng.choice([0.0, 0.25, 0.5]) for n_ in top} if rng.random() < 0.7 else None) for _ in range(T)]
+        prog["extra"]["tw09"] = {n_: [None if r is None else r[n_] for r in rows] for n_ in top}
+        prog["tree"]["algos"] = [["WeighTarget", {"weights": "tw09"}], ["Rebalance", {}]]
+    prog["family"] = "nested09:" + mode
+    return prog
+
+
+FAMILIES = {"nested09": prog_nested09, "lookback": prog_lookback, "flat": prog_flat, "nested": prog_nested, "bankrupt": prog_bankrupt, "flows": prog_flows}
 
 
 def prog_by_family(seed, i, family):
